@@ -205,7 +205,7 @@ def run(verdict, tier):
         n_hist += len(jobs)
         _par_replay(jobs, by_hist, specified, verdict, counters)
         # deeper behaviours by simulation
-        nsim = 300 if tier == "quick" else 3000
+        nsim = 300 if tier == "quick" else 8000
         sd = 1 + seed()
         rs = run_tlc("FuncLogMC", cfg=_cfg(specified, 12, props=False), timeout=900, workers=1,
                      simulate=f"file=sim/tr,num={nsim}", depth=14, seed=sd, keep=True,
